@@ -83,6 +83,9 @@ func (c *BackupClient) PosMap(ctx context.Context) (map[string]ltx.Pos, error) {
 	if err := json.NewDecoder(resp.Body).Decode(&m); err != nil {
 		return nil, err
 	}
+	if m == nil {
+		m = make(map[string]ltx.Pos) // JSON "null"
+	}
 	return m, nil
 }
 
